@@ -21,16 +21,21 @@ RULE = ('every configuration with <= d non-default options restricted to degener
 ASSUMPTIONS = ['predicates only (no expected values); a raised exception is allowed and counted']
 
 
-def _cholesky_ok(c):
+def _cholesky_ok(c, degenerate=False):
+    """positive definite; on degenerate data (singular sample covariance) an eigenvalue of +-1e-17 is
+    rounding noise either way: there the matrix must be positive semidefinite up to 1e-10 relative."""
     try:
         np.linalg.cholesky(c)
         return True
     except np.linalg.LinAlgError:
-        return False
+        if not degenerate:
+            return False
+        w = np.linalg.eigvalsh((c + c.T) / 2)
+        return bool(np.isfinite(w).all() and w.min() >= -1e-10 * max(abs(w.max()), 1e-300))
 
 
 def check_model(model, m, aff_shape, opts, eps, skip_frames=(), kmin=1e-10, kmax=500.0,
-                bingham_max=np.inf, floor=1e-10, single=False, broadcast_lead=False):
+                bingham_max=np.inf, floor=1e-10, single=False, broadcast_lead=False, degenerate=False):
     K, N = aff_shape[-2:]
     lead = aff_shape[:-2]
     f = M.fields(model, m)
@@ -108,7 +113,7 @@ def check_model(model, m, aff_shape, opts, eps, skip_frames=(), kmin=1e-10, kmax
             if np.abs(cov - np.swapaxes(cov, -1, -2)).max() > 1e-9 * (1 + np.abs(cov).max()):
                 return 'Gaussian covariance not symmetric'
             for idx in np.ndindex(*cov.shape[:-2]):
-                if not _cholesky_ok(cov[idx]):
+                if not _cholesky_ok(cov[idx], degenerate):
                     return 'Gaussian covariance not positive definite'
         elif (cov <= 0).any():
             return f'{t} variance {cov.min()!r} <= 0'
@@ -148,7 +153,7 @@ def run_config(key):
     shape = lead + (K, N)
     for i, m in enumerate(trace):
         bad = check_model(model, m, shape, c['opts'], c['eps'], skip_frames=c['skip'],
-                          single=c['single'],
+                          single=c['single'], degenerate=c['degenerate'],
                           broadcast_lead=(p['start'] == 'soft_singleton' and i == 0))
         if bad:
             return viol(f'{model} model after iteration {i}: {bad}')
@@ -180,7 +185,7 @@ def run_single(key):
                 return viol('Gaussian parameters non-finite')
             if ct == 'full':
                 for idx in np.ndindex(*cov.shape[:-2]):
-                    if not _cholesky_ok(cov[idx]):
+                    if not _cholesky_ok(cov[idx], kind != 'generic' or salk == 'one_zero'):
                         return viol('returned Gaussian covariance not positive definite')
             elif (cov <= 0).any():
                 return viol(f'returned variance {cov.min()!r} <= 0')
